@@ -20,8 +20,10 @@ CLAIMS = {
     "C16": dict(
         text="Kernel-checked characterisation of the DOM Level 1 CharacterData operations on lists of characters "
              "(which characters come out, what is preserved, INDEX_SIZE_ERR exactly for offset > length, counts clipped "
-             "so that usize::MAX is not special, replace = delete;insert, split parts concatenate to the original), for "
-             "all strings, offsets and counts; tie: the real text/comment/CDATA/merged-text nodes are driven through "
+             "so that usize::MAX is not special, replace = delete;insert, split parts concatenate to the original; inverse laws "
+             "insert;delete = identity, insert;substring reads the argument, delete;insert of the substring restores the data; a "
+             "failing call keeps the data; the length after every operation), for all strings, offsets and counts; in the tree, "
+             "splitText puts the new node immediately after the split node (split_places_new_node_next, under C12's distinct ids); tie: the real text/comment/CDATA/merged-text nodes are driven through "
              "exhaustive single operations (all offsets/counts 0..len+2 and usize::MAX) and random operation sequences "
              "and must answer exactly as the proved model after every call.",
         note="Trusted: Lean kernel, harness `chardata`, generators. The model is hand-written (lean/XmlRsModel/CharData.lean); "
@@ -268,7 +270,9 @@ CLAIMS = {
              "position in that pre-order walk. Kernel-checked for every state: attached nodes have non-zero keys, keys are 1..n along "
              "the walk element -> attributes -> value items -> children (strictly increasing, distinct) when ids are distinct - and they "
              "are distinct AT EVERY POINT OF ANY EDIT HISTORY of a parsed document (keys_after_any_history, via C12) -, every "
-             "node outside the document tree has key 0 (in particular the node removeChild hands back). Monitor after every step of every history on the real code: order() along "
+             "node outside the document tree has key 0 (in particular the node removeChild hands back); as a function of node identity the key "
+             "is injective on attached nodes, 0 exactly for detached ones and at most the number of attached nodes (key_injective, "
+             "key_zero_iff_detached, key_le_count, distinct_nodes_distinct_keys for every history). Monitor after every step of every history on the real code: order() along "
              "the real walk strictly increasing and non-zero, 0 for detached nodes; 9 queries give the same answer on the edited "
              "document and on from_raw(to_string()).",
         note="The 'consequently' (query equality) is established by the monitor only, on node numbering that ignores text-node "
